@@ -234,12 +234,19 @@ theorem fromImage_noUK (E : Env) (path : Str) (u : SUnit)
   simp only [checkUnknown_ok _ _ _ h0, checkUnknown_ok _ _ _ h1]
   nouk
 
+theorem networkSubnets_noUK (u : SUnit) (sec : Str) : NoUK (networkSubnets u sec) := by
+  unfold networkSubnets
+  simp only []
+  nouk
+
 theorem fromNetwork_noUK (E : Env) (path : Str) (u : SUnit)
     (h0 : firstUnknown (entriesOf u (s "Network")) supportedNetwork = none)
     (h1 : firstUnknown (entriesOf u (s "Quadlet")) supportedQuadlet = none) : NoUK (fromNetwork E path u) := by
   unfold fromNetwork
   simp only [checkUnknown_ok _ _ _ h0, checkUnknown_ok _ _ _ h1]
   nouk
+  · exact networkSubnets_noUK _ _
+  · nouk
 
 theorem fromVolume_noUK (E : Env) (path : Str) (u : SUnit)
     (h0 : firstUnknown (entriesOf u (s "Volume")) supportedVolume = none)
